@@ -10,6 +10,7 @@ even-odd oracle (upward ray, half-open in x, no division).
 import fractions
 import itertools
 import random
+import types
 
 import numpy as np
 import z3
@@ -23,15 +24,20 @@ from vf.symx import Engine, SBool, SReal, srange
 PID = "C15"
 PF = "dclab.polygon_filter"
 PYX = "dclab/external/skimage/_shared/geometry.pyx"
-FUNCTIONS = [(PF, "PolygonFilter.filter"), (PF, "PolygonFilter.points")]
+FUNCTIONS = [(PF, "PolygonFilter.filter"), (PF, "PolygonFilter.points"),
+             (PF, "PolygonFilter.save"), (PF, "PolygonFilter._load")]
 FILES = [PYX, "dclab/external/skimage/_pnpoly.pyx"]
 BOUNDS = {
     "quick": {"kernel": "all polygons with 3..6 real vertices (convex, "
                         "concave, self-intersecting, repeated vertices), any "
                         "real query point off the boundary",
               "filter wrapper": "n=3,4 x 1 point and n=3 x 2 points, "
-                                "inverted and not"},
-    "thorough": {"kernel": "3..7 vertices", "filter wrapper": "n=3..5 x 1 "
+                                "inverted and not",
+              "text": "save/_load of 1 or 2 filters in one file, names of "
+                      "1..3 arbitrary printable ASCII characters (no "
+                      "leading/trailing blank), inverted arbitrary, unique "
+                      "id arbitrary in 0..99999999"},
+    "thorough": {"kernel": "3..7 vertices", "text": "names of 1..4 chars", "filter wrapper": "n=3..5 x 1 "
                  "point, n=3 x 2 points"},
 }
 OUTSIDE = ["IEEE-754 rounding of the division in the kernel (exact reals)",
@@ -39,7 +45,9 @@ OUTSIDE = ["IEEE-754 rounding of the division in the kernel (exact reals)",
            "the compiled extension when it is out of date w.r.t. the .pyx "
            "(Cython is not installed; the current .pyx text is analysed, the "
            ".so is compared on concrete vectors and a drift is reported)",
-           ".poly text round trip (separate CrossHair harness, see DESIGN)"]
+           ".poly text: names with leading/trailing blanks (values are "
+           "stripped by the format), non-printable characters or line "
+           "breaks; the decimal rendering of coordinates ('%.15e', C level)"]
 STUBS = ["_pnpoly._points_in_poly(points, verts): column extraction + call of "
          "the stripped points_in_polygon (hand model of a 10-line Cython "
          "wrapper)", "numpy: zeros((N,2)), column assignment, invert(out=), "
@@ -158,7 +166,137 @@ def run_filter(eng, n, npts, inverted):
     return "ok"
 
 
+# ---------------------------------------------------- .poly text round trip
+class _Sink:
+    def __init__(self):
+        self.lines = []
+
+    def writelines(self, lines):
+        self.lines += list(lines)
+
+    def close(self):
+        pass
+
+
+def run_text(eng, p):
+    """real PolygonFilter.save -> lines -> real PolygonFilter._load with a
+    symbolic name (character codes), symbolic inversion flag and id"""
+    import io
+    from vf.dcsym import rewrite_str_methods
+    from vf.symx import SStr, SInt, sformat
+    from vf.symnp import _truth
+    n = p["n"]
+    chars = [eng.int("c%d" % i) for i in range(n)]
+    for c in chars:
+        eng.assume((c >= 32) & (c <= 126))
+    eng.assume((chars[0] != 32) & (chars[-1] != 32))
+    name = SStr(list(chars))
+    inverted = bool(eng.branch(eng.bool("inverted").e))
+    uid = eng.int("uid")
+    eng.assume((uid >= 0) & (uid <= 99999999))
+    uidc = eng.concretize(uid.e) if p.get("uid_concrete") else None
+    PFc = real(PF, "PolygonFilter")
+
+    class IOBase:            # isinstance(polyfile, io.IOBase)
+        pass
+
+    class Sink(_Sink, IOBase):
+        pass
+
+    class io_shim:
+        pass
+    io_shim.IOBase = IOBase
+    lines_store = {}
+
+    class Path:
+        def __init__(self, nm):
+            self.nm = nm
+
+        def open(self, *a, **k):
+            return self
+
+        def __enter__(self):
+            return self
+
+        def __exit__(self, *a):
+            return False
+
+        def readlines(self):
+            return list(lines_store["lines"])
+
+    class pathlib_shim:
+        pass
+    pathlib_shim.Path = Path
+
+    class NP:
+        """the three numpy calls that locate the section headers"""
+        float64 = np.float64
+
+        @staticmethod
+        def where(flags):
+            return ([i for i, b in enumerate(flags) if _truth(b)],)
+
+        @staticmethod
+        def squeeze(t):
+            return t[0]
+
+        @staticmethod
+        def atleast_1d(x):
+            return list(x)
+
+        @staticmethod
+        def array(x, dtype=None):
+            return np.array(x, dtype=dtype)
+    save = rewrite_str_methods(real(PF, "PolygonFilter.save"),
+                               dict(io=io_shim, pathlib=pathlib_shim),
+                               module=PF, qualname="PolygonFilter.save")
+    load = rewrite_str_methods(real(PF, "PolygonFilter._load"),
+                               dict(pathlib=pathlib_shim, np=NP, int=int),
+                               module=PF, qualname="PolygonFilter._load")
+    pts = [[0.25, 0.5], [10.5, 0.5], [10.5, 7.75]]
+    sink = Sink()
+    filters = [dict(axes=("area_um", "deform"), points=pts, name=name,
+                    inverted=inverted, uid=7 if uidc is None else uidc)]
+    if p["second"]:
+        filters.append(dict(axes=("deform", "area_um"),
+                            points=[[1., 2.], [3., 4.], [5., 1.]],
+                            name="second", inverted=False, uid=filters[0][
+                                "uid"] + 1))
+        if p["second"] == "first":
+            filters.reverse()
+    for f in filters:
+        obj = types.SimpleNamespace(
+            unique_id=f["uid"], axes=f["axes"], name=f["name"],
+            inverted=f["inverted"], points=np.array(f["points"]))
+        save(obj, sink, ret_fobj=True)
+    lines_store["lines"] = sink.lines
+    for k, f in enumerate(filters):
+        new = types.SimpleNamespace(inverted=False, fileid=k, name=None)
+        got = {}
+        new._set_unique_id = lambda u, g=got: g.update(uid=u)
+        load(new, "mem.poly")
+        nm = new.name
+        same = (nm == f["name"]) if isinstance(f["name"], str) and \
+            isinstance(nm, str) else SStr.lift(nm).eq(f["name"])
+        eng.prove(same, "text round trip preserves the name",
+                  info={"filter": k})
+        eng.prove(z3.BoolVal(new.inverted == f["inverted"]),
+                  "text round trip preserves the inversion flag")
+        eng.prove(z3.BoolVal(got.get("uid") == f["uid"]),
+                  "text round trip preserves the identifier")
+        eng.prove(z3.BoolVal(tuple(new.axes) == tuple(f["axes"])),
+                  "text round trip preserves the axes")
+        eng.prove(z3.BoolVal(np.asarray(new.points).tolist() == f["points"]),
+                  "text round trip preserves the points (exactly "
+                  "representable coordinates)")
+    return "ok"
+
+
 def run_case(name, params):
+    if params["kind"] == "text":
+        eng = Engine(timeout_ms=20000)
+        eng.explore(lambda e: run_text(e, params))
+        return eng.stats()
     eng = Engine(timeout_ms=60000, nra=True)
     if params["kind"] == "kernel":
         eng.explore(lambda e: run_kernel(e, params["n"], params["prefix"]))
@@ -188,6 +326,15 @@ def cases(tier, seed):
             out.append(("filter n=%d pts=%d inverted=%s" % (n, npts, inv),
                         dict(kind="filter", n=n, npts=npts, inverted=inv)))
     out.sort(key=lambda c: -c[1]["n"])
+    for n in range(1, (3 if tier == "quick" else 4) + 1):
+        for second in (None, "second", "first"):
+            if n == 4 and second:
+                continue
+            out.append(("text name=%d chars second=%s" % (n, second),
+                        dict(kind="text", n=n, second=second)))
+    out.append(("text any id", dict(kind="text", n=1, second=None,
+                                    uid_concrete=True, skip=True)))
+    out = [c for c in out if not c[1].get("skip")]
     return out
 
 
@@ -222,7 +369,59 @@ def _model_geometry(vals, n, npts):
     return poly, pts
 
 
+def replay_text(params, v):
+    import os
+    import tempfile
+    vals = v.get("values") or {}
+    name = "".join(chr(int(vals.get("c%d" % i, 65) or 65))
+                   for i in range(params["n"]))
+    inverted = bool(vals.get("inverted", False))
+    PolygonFilter = real(PF, "PolygonFilter")
+    pts = [[0.25, 0.5], [10.5, 0.5], [10.5, 7.75]]
+    fails = []
+    with quiet(), tempfile.TemporaryDirectory(prefix="verif_c15_") as td:
+        path = os.path.join(td, "f.poly")
+        PolygonFilter.clear_all_filters()
+        try:
+            specs = [dict(axes=("area_um", "deform"), points=pts, name=name,
+                          inverted=inverted, unique_id=7)]
+            if params["second"]:
+                specs.append(dict(axes=("deform", "area_um"),
+                                  points=[[1., 2.], [3., 4.], [5., 1.]],
+                                  name="second", inverted=False,
+                                  unique_id=8))
+                if params["second"] == "first":
+                    specs.reverse()
+            for sp in specs:
+                PolygonFilter(**sp).save(path)
+            PolygonFilter.clear_all_filters()
+            for k, sp in enumerate(specs):
+                try:
+                    pf = PolygonFilter(filename=path, fileid=k)
+                except Exception as e:
+                    fails.append("loading filter %d (name %r) raises %s: %s"
+                                 % (k, sp["name"], type(e).__name__, e))
+                    continue
+                for attr in ("name", "inverted", "unique_id"):
+                    if getattr(pf, attr) != sp[attr]:
+                        fails.append("%s: saved %r, loaded %r" % (
+                            attr, sp[attr], getattr(pf, attr)))
+                if tuple(pf.axes) != sp["axes"] or \
+                        np.asarray(pf.points).tolist() != sp["points"]:
+                    fails.append("axes/points differ for name %r" % name)
+        finally:
+            PolygonFilter.clear_all_filters()
+    if not fails:
+        return {"reproduced": False, "key": "not-reproduced",
+                "detail": "name %r round-trips on the real code" % name}
+    kind = "name-with-equals" if "=" in name else "other"
+    return {"reproduced": True, "key": "poly-text|%s" % kind,
+            "detail": fails[0]}
+
+
 def replay(case, params, v):
+    if params["kind"] == "text":
+        return replay_text(params, v)
     vals = v.get("values") or {}
     n = params["n"]
     npts = params.get("npts", 1)
@@ -324,4 +523,16 @@ CANARIES = [
     dict(name="filter swaps axes", module=PF,
          qualname="PolygonFilter.filter", old="points[:, 1] = datay",
          new="points[:, 1] = datax", cases=["filter n=3 pts=1 inverted=False"]),
+    dict(name="name split at every '='", module=PF,
+         qualname="PolygonFilter._load", old='li.split("=", 1)',
+         new='li.split("=")', cases=["text name=2 chars second=None"]),
+    dict(name="loaded name lower-cased", module=PF,
+         qualname="PolygonFilter._load", old="self.name = val",
+         new="self.name = val.lower()",
+         cases=["text name=2 chars second=second"]),
+    dict(name="inverted flag written wrongly", module=PF,
+         qualname="PolygonFilter.save",
+         old='"Inverted = {}".format(self.inverted)',
+         new='"Inverted = {}".format(int(self.inverted))',
+         cases=["text name=1 chars second=None"]),
 ]
